@@ -537,7 +537,7 @@ pub fn dispatch(f: &[&str]) -> String {
                 Err(e) => format!("err\t{:?}", e),
             }
         }
-        "hdrs.ops" => {
+        "hdrs.ops" | "hdrs.fmtops" => {
             use lettre::message::header::{HeaderName, HeaderValue, Headers};
             let mut h = Headers::new();
             let mut rs = vec![];
@@ -552,6 +552,7 @@ pub fn dispatch(f: &[&str]) -> String {
                             h.insert_raw(HeaderValue::new(n, v));
                             rs.push("unit".into());
                         }
+                        "fmt" => { let _ = h.to_string(); rs.push("unit".into()); }
                         "get" => rs.push(h.get_raw(&name).map(|v| format!("some:{}", hex(v.as_bytes()))).unwrap_or_else(|| "none".into())),
                         _ => rs.push(match h.remove_raw(&name) { Some(v) => { let mut t = Headers::new(); let vs = format!("{:?}", v); let _ = vs; t.insert_raw(v); let line = t.to_string(); let _ = line; format!("some:{}", hex(t.get_raw(&name).unwrap_or("").as_bytes())) } None => "none".into() }),
                     }
